@@ -20,20 +20,22 @@ import (
 	"path/filepath"
 	"sort"
 	"strings"
+	"sync/atomic"
 
 	comet "github.com/wizenheimer/comet"
 	"verifharness/internal/core"
 )
 
 type cdcTruncCase struct {
-	P       cdcCparams     `json:"p"`
-	Shape   int            `json:"shape"`
-	Cmds    []cdcCcmd      `json:"cmds"`
-	Others  []cdcCodecCase `json:"others"` // one small case per other kind (cross matrix)
-	Seed    uint64         `json:"seed"`
-	Segment bool           `json:"segment"`
-	Hung    bool           `json:"hung,omitempty"` // set by Exec when a read did not return: the case is not shrunk (every re-run costs the deadline)
-	Thor    bool           `json:"thor"`
+	P        cdcCparams     `json:"p"`
+	Shape    int            `json:"shape"`
+	Cmds     []cdcCcmd      `json:"cmds"`
+	Others   []cdcCodecCase `json:"others"` // one small case per other kind (cross matrix)
+	Seed     uint64         `json:"seed"`
+	Segment  bool           `json:"segment"`
+	Hung     bool           `json:"hung,omitempty"`     // set by Exec when a read did not return: the case is not shrunk (every re-run costs the deadline)
+	NoShrink bool           `json:"noshrink,omitempty"` // set by Exec on the later ones of many visibly failing cases
+	Thor     bool           `json:"thor"`
 }
 
 func cdcGenTrunc(r *core.Rand, tier string) *cdcTruncCase {
@@ -161,6 +163,24 @@ func cdcMismatches(p cdcCparams) (names []string, ps []cdcCparams) {
 				set(&w, q)
 				add(f, w)
 			}
+			// a receiver constructed with efSearch = 0 (or = efConstruction: "no efSearch of its
+			// own", what the documented default produces) reading a stream whose efSearch differs
+			efc := v.EfC
+			if efc <= 0 {
+				efc = 200
+			}
+			if v.EfS > 0 && v.EfS != efc {
+				q = v
+				q.EfS = 0
+				w = base
+				set(&w, q)
+				add("efs-default", w)
+				q = v
+				q.EfS = efc
+				w = base
+				set(&w, q)
+				add("efs-equals-efc", w)
+			}
 		case "ivf", "ivfpq":
 			q = v
 			q.Nlist = v.Nlist + 1
@@ -233,7 +253,41 @@ func cdcBuildState(p cdcCparams, cmds []cdcCcmd) (*cdcAnyIndex, error) {
 	return a, nil
 }
 
+// see cdcFailSeen (stream_codec.go): from the 25th visibly failing execution on the cases are
+// reported unshrunk
+var cdcTruncFailSeen atomic.Int64
+
+func cdcTruncVisiblyFailing(lines []string) bool {
+	for _, l := range lines {
+		switch {
+		case strings.HasPrefix(l, "op panic"), strings.HasSuffix(l, "=> hang"), strings.Contains(l, " => hang "):
+			return true
+		case strings.HasPrefix(l, "op prefixes "):
+			// an accepted strict prefix: an 'o' that is not the last outcome of the last line
+			i := strings.LastIndex(l, "=> ")
+			if i > 0 && strings.ContainsAny(l[i+3:len(l)-1], "oh") {
+				return true
+			}
+		case strings.HasPrefix(l, "op cross "), strings.HasPrefix(l, "op mismatch "), strings.HasPrefix(l, "op version "):
+			if strings.HasSuffix(l, "=> o") || strings.HasSuffix(l, "=> h") {
+				return true
+			}
+		case strings.HasPrefix(l, "op segment ") && strings.Contains(l, " cached=1 "):
+			return true
+		}
+	}
+	return false
+}
+
 func cdcExecTrunc(c *cdcTruncCase) []string {
+	lines := cdcExecTruncInner(c)
+	if cdcTruncVisiblyFailing(lines) && cdcTruncFailSeen.Add(1) > 25 {
+		c.NoShrink = true
+	}
+	return lines
+}
+
+func cdcExecTruncInner(c *cdcTruncCase) []string {
 	src, err := cdcBuildState(c.P, c.Cmds)
 	if err != nil {
 		return []string{"begin trunc " + c.P.Kind, "op panic constructor: " + err.Error(), "end"}
@@ -281,7 +335,9 @@ func cdcExecTrunc(c *cdcTruncCase) []string {
 	lens := cdcPrefixLengths(r, len(stream), bounds, c.Thor)
 	guard := &cdcGuard{}
 	defer guard.close()
-	pouts, pmsgs := guard.prefixes(c.P, stream, lens)
+	// every prefix length through another reader (one byte at a time, chunks, half reads,
+	// field-aligned pieces, gzip blocks, MultiReader, data+EOF: codec_readers.go)
+	pouts, pmsgs := guard.prefixes(c.P, stream, lens, int(c.Seed%7), c.Seed, bounds)
 	stopped := false
 	for i := 0; i < len(pouts); {
 		j := i
@@ -639,7 +695,7 @@ func init() {
 		GenF:  cdcGenTrunc,
 		ExecF: cdcExecTrunc,
 		LenF: func(c *cdcTruncCase) int {
-			if c.Hung { // not shrunk: every re-run would wait for the deadline again
+			if c.Hung || c.NoShrink { // not shrunk: every re-run would wait for the deadline again
 				return 0
 			}
 			return len(c.Cmds)
